@@ -1,4 +1,4 @@
-import Lattigo.Proofs.NTTTables
+import Lattigo.Proofs.NTTCI
 import Mathlib.NumberTheory.LucasPrimality
 import Mathlib.Tactic.NormNum.Prime
 /-!
@@ -217,6 +217,25 @@ theorem ntt_mul_mkTables (K q g : ℕ) (hq : q.Prime) (h8 : 8 * q ≤ W) (hdiv :
   nttStd_mul (T := mkTables (2 ^ K) q (2 ^ (K + 1)) g) (mkTables_valid K q g hq h8 hdiv hg).1
     (mkTables_valid K q g hq h8 hdiv hg).2 a b hla hlb ha hb
 
+open Finset in
+/-- **ntt_eval** (closed form with the generated tables): in `Z_q`,
+`(NTT a)[t] = Σ_i a_i ψ^{i(2·brv_K(t)+1)}`, `ψ = g^((q−1)/2N)`, `ψ^N = −1`. -/
+theorem ntt_eval (K q g : ℕ) (hK : 1 ≤ K) (hq : q.Prime) (h8 : 8 * q ≤ W)
+    (hdiv : 2 ^ (K + 1) ∣ q - 1) (hg : g ^ ((q - 1) / 2) % q = q - 1)
+    (a : List ℕ) (hlen : a.length = 2 ^ K) (ha : ∀ x ∈ a, x < q) :
+    (nttStd (mkTables (2 ^ K) q (2 ^ (K + 1)) g) a).map (Nat.cast : ℕ → ZMod q)
+      = (List.range (2 ^ K)).map (fun t => ∑ i ∈ range (2 ^ K), ((a.getD i 0 : ℕ) : ZMod q)
+          * ((((g : ℕ) : ZMod q) ^ ((q - 1) / 2 ^ (K + 1))) ^ (2 * bitRev t K + 1)) ^ i)
+    ∧ (((g : ℕ) : ZMod q) ^ ((q - 1) / 2 ^ (K + 1))) ^ 2 ^ K = -1 :=
+  ⟨nttStd_mkTables_eval K q g hK hq h8 hdiv hg a hlen ha, (mkTables_all K q g hq h8 hdiv hg).2.2.1⟩
+
+/-- the generated forward table, Montgomery factor stripped, is `ψ^{brv_K(j)}` -/
+theorem tables_closed_form (K q g : ℕ) (hq : q.Prime) (h8 : 8 * q ≤ W)
+    (hdiv : 2 ^ (K + 1) ∣ q - 1) (hg : g ^ ((q - 1) / 2) % q = q - 1) (j : ℕ) (hj : j < 2 ^ K) :
+    rho q (mkTables (2 ^ K) q (2 ^ (K + 1)) g).rootsF j
+      = (((g : ℕ) : ZMod q) ^ ((q - 1) / 2 ^ (K + 1))) ^ bitRev j K :=
+  (mkTables_all K q g hq h8 hdiv hg).2.2.2 j hj
+
 /-- the lazy forward transform with the generated tables never wraps and returns values `≤ 6q − 2` -/
 theorem ntt_range_mkTables (K q g : ℕ) (hK : 1 ≤ K) (hq : q.Prime) (h8 : 8 * q ≤ W)
     (hdiv : 2 ^ (K + 1) ∣ q - 1) (hg : g ^ ((q - 1) / 2) % q = q - 1) (a : List ℕ)
@@ -228,6 +247,58 @@ theorem ntt_range_mkTables (K q g : ℕ) (hK : 1 ≤ K) (hq : q.Prime) (h8 : 8 *
   have hT := (mkTables_valid K q g hq h8 hdiv hg).1
   obtain ⟨_, h1, h2⟩ := nttCoreLazy_range _ K hT.n_eq hT.h8 hT.mont hT.rootsF_lt 2 (by omega) a ha
   exact ⟨h1, h2 hK⟩
+
+/-! ## 4b. The conjugate-invariant ring -/
+
+/-- **intt_ntt, conjugate-invariant ring**: `inttCI T (nttCI T a) = a` for all `a` of length `N` with
+entries `< q`, under `ValidCI` (tables of `2N` entries, `ρF_j ρB_j = 1` for `1 ≤ j < 2N`, `ρ_1² = −1`,
+`nInv = (2N)⁻¹`). -/
+theorem intt_ntt_ci (T : Tables) (K : ℕ) (hT : ValidCI T K) (a : List ℕ) (hlen : a.length = T.n)
+    (ha : ∀ x ∈ a, x < T.q) : inttCI T (nttCI T a) = a :=
+  inttCI_nttCI hT a hlen ha
+
+/-- `nttCI` is, in `Z_q`, the exact twist followed by the exact network from node `2` -/
+theorem ntt_ci_exact (T : Tables) (K : ℕ) (hT : ValidCI T K) [Fact T.q.Prime] (a : List ℕ)
+    (ha : ∀ x ∈ a, x < T.q) :
+    (nttCI T a).map (Nat.cast : ℕ → ZMod T.q)
+      = fwdZ (rho T.q T.rootsF) K 2 (twistZ (rho T.q T.rootsF 1) (a.map (Nat.cast : ℕ → ZMod T.q)))
+    ∧ ∀ y ∈ nttCI T a, y < T.q :=
+  nttCI_cast hT a ha
+
+open Finset in
+/-- **Semantics of the conjugate-invariant forward transform**: entry `t` of `nttCI T a` is the value at
+`x_t` of the conjugate-invariant polynomial `a_0 + Σ_{m=1}^{N−1} a_m (X^m + X^{−m})`, where
+`x_t^N = ρ_1`, `ρ_1² = −1` (the `x_t` are primitive `4N`-th roots of unity): the left half of the
+`2N`-point negacyclic transform of the folded polynomial. -/
+theorem ntt_ci_sem (T : Tables) (K : ℕ) (hT : ValidCI T K) [Fact T.q.Prime]
+    (hinv : TableInv (rho T.q T.rootsF) (2 ^ (K + 1)))
+    (a : List ℕ) (hlen : a.length = T.n) (ha : ∀ x ∈ a, x < T.q) :
+    (nttCI T a).map (Nat.cast : ℕ → ZMod T.q)
+      = (List.range (2 ^ K)).map (fun t =>
+          ∑ j ∈ range (2 ^ K), ((a.getD j 0 : ℕ) : ZMod T.q) * pt (rho T.q T.rootsF) K 2 t ^ j
+          + ∑ m ∈ range (2 ^ K - 1),
+              ((a.getD (m + 1) 0 : ℕ) : ZMod T.q) * (pt (rho T.q T.rootsF) K 2 t)⁻¹ ^ (m + 1))
+    ∧ (∀ t, pt (rho T.q T.rootsF) K 2 t ^ 2 ^ K = rho T.q T.rootsF 1)
+    ∧ rho T.q T.rootsF 1 * rho T.q T.rootsF 1 = -1 :=
+  nttCI_eval hT hinv a hlen ha
+
+/-- the table invariant for the generated conjugate-invariant tables (`2N` entries) -/
+theorem tables_invariant_ci_inv (K q g : ℕ) (hq : q.Prime) (h8 : 8 * q ≤ W)
+    (hdiv : 2 ^ (K + 2) ∣ q - 1) (hg : g ^ ((q - 1) / 2) % q = q - 1) :
+    TableInv (rho q (mkTables (2 ^ K) q (2 ^ (K + 2)) g).rootsF) (2 ^ (K + 1)) :=
+  mkTables_tableInvCI K q g hq h8 hdiv hg
+
+/-- the tables generated for the conjugate-invariant ring (`nthRoot = 4N`) satisfy `ValidCI` -/
+theorem tables_invariant_ci (K q g : ℕ) (hq : q.Prime) (h8 : 8 * q ≤ W) (hdiv : 2 ^ (K + 2) ∣ q - 1)
+    (hg : g ^ ((q - 1) / 2) % q = q - 1) : ValidCI (mkTables (2 ^ K) q (2 ^ (K + 2)) g) K :=
+  mkTables_validCI K q g hq h8 hdiv hg
+
+/-- `INTT_ci(NTT_ci(a)) = a` with the generated tables -/
+theorem intt_ntt_ci_mkTables (K q g : ℕ) (hq : q.Prime) (h8 : 8 * q ≤ W)
+    (hdiv : 2 ^ (K + 2) ∣ q - 1) (hg : g ^ ((q - 1) / 2) % q = q - 1) (a : List ℕ)
+    (hlen : a.length = 2 ^ K) (ha : ∀ x ∈ a, x < q) :
+    inttCI (mkTables (2 ^ K) q (2 ^ (K + 2)) g) (nttCI (mkTables (2 ^ K) q (2 ^ (K + 2)) g) a) = a :=
+  inttCI_nttCI (mkTables_validCI K q g hq h8 hdiv hg) a hlen ha
 
 /-! ## 5. Non-vacuity -/
 
@@ -310,6 +381,10 @@ example : Valid (mkTables (2 ^ 4) 65537 (2 ^ 5) 3) 4
     ∧ TableInv (rho 65537 (mkTables (2 ^ 4) 65537 (2 ^ 5) 3).rootsF) (2 ^ 4) :=
   tables_invariant 4 65537 3 (by norm_num) (by decide) (by decide) (by decide +kernel)
 
+/-- non-vacuity of `ValidCI`: `q61`, conjugate-invariant ring of degree `16` (`64 ∣ q61 − 1`) -/
+example : ValidCI (mkTables (2 ^ 4) q61 (2 ^ 6) 37) 4 :=
+  tables_invariant_ci 4 q61 37 q61_prime (by decide) (by decide) q61_nonresidue
+
 /-- the hypotheses of `ntt_range` / `intt_range` hold for the real `N = 16` table of `q61` and the
 extreme lazy input `2q − 1` -/
 example : let T := mkTables (2 ^ 4) q61 (2 ^ 5) 37
@@ -360,5 +435,13 @@ end Lattigo.Props.C01NTT
 #print axioms Lattigo.Props.C01NTT.tables_invariant_primitive
 #print axioms Lattigo.Props.C01NTT.intt_ntt_mkTables
 #print axioms Lattigo.Props.C01NTT.ntt_mul_mkTables
+#print axioms Lattigo.Props.C01NTT.ntt_eval
+#print axioms Lattigo.Props.C01NTT.tables_closed_form
 #print axioms Lattigo.Props.C01NTT.ntt_range_mkTables
+#print axioms Lattigo.Props.C01NTT.intt_ntt_ci
+#print axioms Lattigo.Props.C01NTT.ntt_ci_exact
+#print axioms Lattigo.Props.C01NTT.tables_invariant_ci
+#print axioms Lattigo.Props.C01NTT.tables_invariant_ci_inv
+#print axioms Lattigo.Props.C01NTT.ntt_ci_sem
+#print axioms Lattigo.Props.C01NTT.intt_ntt_ci_mkTables
 #print axioms Lattigo.Props.C01NTT.q61_prime
